@@ -228,6 +228,7 @@ def make_cases(rng, i, nprocs):
     hints = ["nc_burst_buf:enable", "nc_burst_buf_dirname:@OUT@/bb", "nc_burst_buf_flush_buffer_size:%d" % fb]
     shared = rng.random() < 0.5
     keep = rng.random() < 0.25
+    shortw = rng.random() < 0.25
     if shared:
         hints.append("nc_burst_buf_shared_logs:enable")
     if keep:
@@ -237,9 +238,11 @@ def make_cases(rng, i, nprocs):
         lines = ["0 prefill path=s:@OUT@/bb/.keep size=0"] if False else []
         lines = [l.replace("info=@HINTS@", "info=" + h) for l in p.s.lines]
         # the log directory must exist
-        lines = ["* setenv key=VERIF_DUMMY val=s:1"] + lines   # keeps line numbers aligned between the two drivers (+1)
+        # first line (keeps line numbers aligned between the two runs): in a quarter of the pairs every POSIX write of more
+        # than 16 bytes to a log file is cut short (legal for write(2)); the driver has to loop.  No effect without logs.
+        lines = [("* shortwrite min=16" if shortw else "* setenv key=VERIF_DUMMY val=s:1")] + lines
         exp = {(r, l + 1): e for (r, l), e in p.expect.items()}
-        out.append(Case("c12_%05d_%s" % (i, drv), nprocs, lines, meta={"expect": exp, "fm": p.fm, "feat": p.feat | {("bb", fb == 0, shared, keep, nprocs)},
+        out.append(Case("c12_%05d_%s" % (i, drv), nprocs, lines, meta={"expect": exp, "fm": p.fm, "feat": p.feat | {("bb", fb == 0, shared, keep, nprocs, shortw)},
                                                                         "drv": drv, "pair": i, "lsline": lsline + 1, "keep": keep, "nel": p.nelems_checked},
                         env={"VERIF_MKDIR": "bb"}))
     return out
@@ -252,7 +255,7 @@ class C12(Check):
             "'largest request' to unlimited, shared or per-process logs, del_on_close on/off) and with the default driver.  Oracles: data "
             "model on both runs (own writes readable without explicit flush, everything visible to all ranks after wait/flush/sync/redef/"
             "close, record count right after every logged put; independent-mode episodes of logged puts with immediate read-back; close in "
-            "collective mode / independent mode with pending, flushed or empty logs), logical dump of the two final files identical, log directory empty after "
+            "collective mode / independent mode with pending, flushed or empty logs; POSIX short writes injected into log-file writes), logical dump of the two final files identical, log directory empty after "
             "close unless retention was requested.  distinct = (unlimited?, shared, keep, nprocs) x access tuples")
     assumptions = ["no element is written twice between flushes (documented limitation)", "cancel of logged requests is not exercised (NC_EFLUSHED is documented)"]
 
